@@ -15,7 +15,7 @@ func init() {
 		Level:     "model_checking",
 		Technique: "bounded exhaustive exploration of all table-building operation sequences on the real table, compared step by step with a reference model",
 		Rule: "all sequences of AddHeaders(n)/AddRowItems(n) (n in 0,1,2,3,11), AddSeparator, AppendNewRow, NewRow, NewRowSizedFor, AddRow(detached row), Row.Add on detached AND attached rows, Add on a separator row, and mutation of the AllRows() copy, " +
-			"to depth 4 (quick) / 6 (thorough; depth 7 without the 11-cell ops); the oracle runs after every step; a sequence is non-trivial when its final table has a separator, a zero-cell or ragged row, a post-attach cell, a replaced header or >=10 columns; distinct by reference-model state",
+			"to depth 5-6 (quick) / 6-7 (thorough), plus the same alphabet to depth 3 (4) after 49 rows/separators have been built (crossing the 50-row pre-allocation); the oracle runs after every step; a sequence is non-trivial when its final table has a separator, a zero-cell or ragged row, a post-attach cell, a replaced header or >=10 columns; distinct by reference-model state",
 		Assumptions: []string{
 			"each row is attached at most once and never to two tables (outside the documented model)",
 			"when a second AddHeaders installs a narrower header the column count may be the maximum over current content or over everything ever added (statement silent on shrinking)",
@@ -39,6 +39,60 @@ func runC02(x *X) {
 	} else {
 		fams = append(fams, fam{"build-seq-narrow", 6, []int{0, 1, 2}})
 	}
+	// crossing the 50-row mark (the core pre-allocates 50 row slots): 49 rows/separators first, then everything again
+	tallCfg := &BuildCfg{Counts: []int{0, 1, 2}, MaxDetached: 1, AllowSepAdd: true, AllowMutateCopy: true, AllowNewRowSized: true}
+	tallDepth := x.Pick(3, 4)
+	x.Explore("tall", ExploreOpts{ShardDepth: 2, Bound: fmt.Sprintf("49 rows and separators built first, then all sequences of depth<=%d over the narrow alphabet", tallDepth)}, func(c *Chooser) {
+		b := NewBuilder(tallCfg)
+		for i := 0; i < 49; i++ {
+			if i%6 == 5 {
+				b.applyNamed(c, "AddSeparator", 0)
+			} else {
+				b.applyNamed(c, "AddRowItems/2", 0)
+			}
+		}
+		c.Logf("-- 49 rows/separators built")
+		for step := 0; step < tallDepth; step++ {
+			op := b.Step(c, true)
+			if op == "" {
+				break
+			}
+			x.Transition(1)
+			c02Oracle(x, b, op)
+		}
+		x.State("tall:" + b.Key()[len(b.Key())-20:])
+		x.Nontrivial(b.Key())
+	})
+	// crossing the 10-cell mark of NewRow() (pre-allocated capacity 10) on a detached and on an attached row
+	x.Explore("long-row", ExploreOpts{ShardDepth: 2, Bound: "a NewRow() given 9..11 cells before or after being attached, then all sequences of depth<=3 over the narrow alphabet"}, func(c *Chooser) {
+		b := NewBuilder(tallCfg)
+		n := 9 + c.Choose(3)
+		attachFirst := c.Bool()
+		b.applyNamed(c, "NewRow", 0)
+		if attachFirst {
+			b.applyNamed(c, "AddRow(detached)", 0)
+			for i := 0; i < n; i++ {
+				b.applyNamed(c, "attached.Add", 0)
+				c02Oracle(x, b, "attached.Add")
+			}
+		} else {
+			for i := 0; i < n; i++ {
+				b.applyNamed(c, "detached.Add", 0)
+			}
+			b.applyNamed(c, "AddRow(detached)", 0)
+		}
+		c02Oracle(x, b, "long row built")
+		for step := 0; step < 3; step++ {
+			op := b.Step(c, true)
+			if op == "" {
+				break
+			}
+			x.Transition(1)
+			c02Oracle(x, b, op)
+		}
+		x.State("longrow:" + b.Key())
+		x.Nontrivial(b.Key())
+	})
 	for _, f := range fams {
 		f := f
 		cfg := &BuildCfg{Counts: f.counts, MaxDetached: 2, AllowSepAdd: true, AllowMutateCopy: true, AllowNewRowSized: true}
